@@ -3,3 +3,20 @@ import Ark.Props.C09
 #print axioms Ark.Props.C09.event_order_in_source
 #print axioms Ark.Props.C09.callbacks_cannot_change_structure_when_locked
 #print axioms Ark.Props.C09.callback_set_exact
+#print axioms Ark.Props.C09.world_add_sees
+#print axioms Ark.Props.C09.world_newEntity_sees
+#print axioms Ark.Props.C09.world_newEntity0_sees
+#print axioms Ark.Props.C09.world_copyEntity_sees
+#print axioms Ark.Props.C09.world_set_sees
+#print axioms Ark.Props.C09.world_emit_sees
+#print axioms Ark.Props.C09.world_remove_sees
+#print axioms Ark.Props.C09.world_removeEntity_sees
+#print axioms Ark.Props.C09.world_exchange_sees
+#print axioms Ark.Props.C09.world_exact_visits_once
+#print axioms Ark.Props.C09.world_exact_visits_none
+#print axioms Ark.Props.C09.world_query_probe_in_removal_callback
+#print axioms Ark.Props.C09.world_harness_runner
+#print axioms Ark.Props.C09.batch_batch_idiom_loses_no_callback
+#print axioms Ark.Props.C09.batch_newBatch_callbacks
+#print axioms Ark.Props.C09.batch_removeEntities_callbacks
+#print axioms Ark.Props.C09.batch_exchangeBatch_callbacks
